@@ -1,7 +1,11 @@
 //! Mock network endpoints for C16: a datagram socket that records every
-//! `send_to`, and a listener that hands out `tokio::io::duplex` streams.
+//! `send_to` (optionally not ready for the first poll of every datagram), a
+//! listener that hands out `tokio::io::duplex` streams through an accept
+//! future that is ready at once, after some virtual time, never, or fails,
+//! and a buffer source with a configurable receive buffer size.
+use domain::net::server::buf::BufSource;
 use domain::net::server::sock::{AsyncAccept, AsyncDgramSock};
-use std::collections::VecDeque;
+use std::collections::{BTreeSet, VecDeque};
 use std::future::Future;
 use std::io;
 use std::net::SocketAddr;
@@ -19,9 +23,18 @@ pub struct MockSock {
     pub sent: Mutex<Vec<(SocketAddr, Vec<u8>)>>,
     /// number of datagrams the server has taken from the socket
     pub received: Mutex<usize>,
+    /// the socket is not ready for the first `poll_send_to` of every
+    /// datagram (send buffer full): Pending + wake-up, ready on the next poll
+    pub send_pending: bool,
+    pended: Mutex<BTreeSet<SocketAddr>>,
+    /// number of `poll_send_to` calls answered with Pending
+    pub pendings: Mutex<usize>,
 }
 
 impl MockSock {
+    pub fn new(send_pending: bool) -> Self {
+        MockSock { send_pending, ..Default::default() }
+    }
     pub fn deliver(&self, data: Vec<u8>, from: SocketAddr) {
         self.inbox.lock().unwrap().push_back((data, from));
         self.notify.notify_one();
@@ -29,7 +42,17 @@ impl MockSock {
 }
 
 impl AsyncDgramSock for MockSock {
-    fn poll_send_to(&self, _cx: &mut Context<'_>, data: &[u8], dest: &SocketAddr) -> Poll<io::Result<usize>> {
+    fn poll_send_to(&self, cx: &mut Context<'_>, data: &[u8], dest: &SocketAddr) -> Poll<io::Result<usize>> {
+        if self.send_pending {
+            // responses to one address are sent one after the other
+            let mut g = self.pended.lock().unwrap();
+            if g.insert(*dest) {
+                *self.pendings.lock().unwrap() += 1;
+                cx.waker().wake_by_ref();
+                return Poll::Pending;
+            }
+            g.remove(dest);
+        }
         self.sent.lock().unwrap().push((*dest, data.to_vec()));
         Poll::Ready(Ok(data.len()))
     }
@@ -59,25 +82,87 @@ impl AsyncDgramSock for MockSock {
     }
 }
 
+/// A `BufSource` like `VecBufSource` with another receive buffer size.
+#[derive(Clone)]
+pub struct SizedBuf(pub usize);
+
+impl BufSource for SizedBuf {
+    type Output = Vec<u8>;
+    fn create_buf(&self) -> Vec<u8> {
+        vec![0; self.0]
+    }
+    fn create_sized(&self, size: usize) -> Vec<u8> {
+        vec![0; size]
+    }
+}
+
+/// How the establishment of one connection goes (`AsyncAccept::Future`, e.g.
+/// a TLS handshake).
+#[derive(Clone, Copy, Debug, PartialEq, Eq, Hash)]
+pub enum Accept {
+    /// the future is ready at once (plain TCP)
+    Ready,
+    /// the future needs this much virtual time
+    Delay(u32),
+    /// the future never completes (a client that connects and then stalls
+    /// the handshake)
+    Never,
+    /// the future completes with an error
+    Fail,
+    /// `poll_accept` itself reports an error for this connection
+    Refused,
+}
+
+impl Accept {
+    /// the server never gets a stream for this connection
+    pub fn dead(&self) -> bool {
+        matches!(self, Accept::Never | Accept::Fail | Accept::Refused)
+    }
+}
+
+pub type Incoming = (DuplexStream, SocketAddr, Accept);
+
 pub struct MockListener {
-    rx: Mutex<mpsc::UnboundedReceiver<(DuplexStream, SocketAddr)>>,
+    rx: Mutex<mpsc::UnboundedReceiver<Incoming>>,
 }
 
 impl MockListener {
-    pub fn new() -> (Self, mpsc::UnboundedSender<(DuplexStream, SocketAddr)>) {
+    pub fn new() -> (Self, mpsc::UnboundedSender<Incoming>) {
         let (tx, rx) = mpsc::unbounded_channel();
         (MockListener { rx: Mutex::new(rx) }, tx)
     }
 }
 
+pub type AcceptFuture = Pin<Box<dyn Future<Output = io::Result<DuplexStream>> + Send>>;
+
 impl AsyncAccept for MockListener {
     type Error = io::Error;
     type StreamType = DuplexStream;
-    type Future = std::future::Ready<Result<DuplexStream, io::Error>>;
+    type Future = AcceptFuture;
 
     fn poll_accept(&self, cx: &mut Context<'_>) -> Poll<io::Result<(Self::Future, SocketAddr)>> {
         match self.rx.lock().unwrap().poll_recv(cx) {
-            Poll::Ready(Some((s, a))) => Poll::Ready(Ok((std::future::ready(Ok(s)), a))),
+            Poll::Ready(Some((s, a, how))) => {
+                let fut: AcceptFuture = match how {
+                    Accept::Ready => Box::pin(std::future::ready(Ok(s))),
+                    Accept::Delay(ms) => Box::pin(async move {
+                        tokio::time::sleep(std::time::Duration::from_millis(ms as u64)).await;
+                        Ok(s)
+                    }),
+                    Accept::Never => Box::pin(async move {
+                        // the stream stays open, the handshake never ends
+                        let _keep = s;
+                        std::future::pending::<()>().await;
+                        unreachable!()
+                    }),
+                    Accept::Fail => Box::pin(async move {
+                        drop(s);
+                        Err(io::Error::other("handshake failed"))
+                    }),
+                    Accept::Refused => return Poll::Ready(Err(io::Error::other("accept failed"))),
+                };
+                Poll::Ready(Ok((fut, a)))
+            }
             // sender gone: no further connections, ever
             Poll::Ready(None) => Poll::Pending,
             Poll::Pending => Poll::Pending,
